@@ -1,0 +1,33 @@
+//! Verification hooks (property C20): thin read-only wrappers around the three parallel
+//! k-means updaters. Compiled only with `--cfg linfa_verif`.
+use linfa::Float;
+use linfa_nn::distance::Distance;
+use ndarray::{ArrayBase, Data, DataMut, Ix1, Ix2};
+
+pub fn update_cluster_memberships<F: Float, D: Distance<F>>(
+    dist_fn: &D,
+    centroids: &ArrayBase<impl Data<Elem = F> + Sync, Ix2>,
+    observations: &ArrayBase<impl Data<Elem = F> + Sync, Ix2>,
+    cluster_memberships: &mut ArrayBase<impl DataMut<Elem = usize>, Ix1>,
+) {
+    crate::k_means::update_cluster_memberships(dist_fn, centroids, observations, cluster_memberships)
+}
+
+pub fn update_min_dists<F: Float, D: Distance<F>>(
+    dist_fn: &D,
+    centroids: &ArrayBase<impl Data<Elem = F> + Sync, Ix2>,
+    observations: &ArrayBase<impl Data<Elem = F> + Sync, Ix2>,
+    dists: &mut ArrayBase<impl DataMut<Elem = F>, Ix1>,
+) {
+    crate::k_means::update_min_dists(dist_fn, centroids, observations, dists)
+}
+
+pub fn update_memberships_and_dists<F: Float, D: Distance<F>>(
+    dist_fn: &D,
+    centroids: &ArrayBase<impl Data<Elem = F> + Sync, Ix2>,
+    observations: &ArrayBase<impl Data<Elem = F> + Sync, Ix2>,
+    cluster_memberships: &mut ArrayBase<impl DataMut<Elem = usize>, Ix1>,
+    dists: &mut ArrayBase<impl DataMut<Elem = F>, Ix1>,
+) {
+    crate::k_means::update_memberships_and_dists(dist_fn, centroids, observations, cluster_memberships, dists)
+}
